@@ -72,6 +72,10 @@ pub struct Tx<'a> {
     pub ctx: Vec<String>,
     pub lock_vars: Vec<String>,
     pub value_vars: Vec<String>,
+    /// OPS rules (map operations on the bin-level arena; template with //@DIALECT OPS): R27..R36
+    pub ops: bool,
+    /// R27: `X = loop { .. break V; .. }` is emitted as `loop { .. X = V; break; .. }` (Verus has no break-with-value)
+    pub break_targets: Vec<Option<String>>,
 }
 
 fn path_str(p: &syn::Path) -> String {
@@ -227,6 +231,9 @@ impl<'a> Tx<'a> {
                 let op = crate::emit::toks(&b.op);
                 format!("({} {} {})", self.expr(&b.left), op, self.expr(&b.right))
             }
+            syn::Expr::Field(fe) if self.ops && matches!(&*fe.base, syn::Expr::Path(pp) if pp.path.is_ident("changed")) => {
+                format!("changed_{}", toks(&fe.member))
+            }
             syn::Expr::Field(_) => {
                 if let Some((p, f)) = self.node_field(e) {
                     match f.as_str() {
@@ -314,10 +321,20 @@ impl<'a> Tx<'a> {
                     }
                     return format!("h.make_bin({}, {})", root, first);
                 }
+                if self.ops && n.contains("::") {
+                    let mut fs = vec![];
+                    for f in &s.fields {
+                        let v = self.expr(&f.expr);
+                        let v = self.hoist(v);
+                        fs.push(format!("{}: {}", toks(&f.member), v));
+                    }
+                    return format!("{} {{ {} }}", n, fs.join(", "));
+                }
                 self.err(&format!("struct literal {}", n), e.span());
                 String::new()
             }
             syn::Expr::Cast(c) => format!("({} as {})", self.expr(&c.expr), toks(&*c.ty)),
+            syn::Expr::Let(l) if self.ops => format!("let {} = {}", toks(&*l.pat), self.expr(&l.expr)),
             _ => {
                 self.err(&format!("expression `{}`", { let mut s = toks(e); s.truncate(60); s }), e.span());
                 String::new()
@@ -394,6 +411,39 @@ impl<'a> Tx<'a> {
             "Guard::unprotected" => return "()".into(),
             "Shared::null" | "Atomic::null" => return "NULL".into(),
             "Atomic::from" | "Shared::from" => return self.expr(&c.args[0]),
+            "Some" if self.ops => {
+                let a = self.expr(&c.args[0]);
+                return format!("Some({})", a);
+            }
+            "Shared::boxed" if self.ops => {
+                // R28: Shared::boxed(BinEntry::Node(Node::new(h, k, v)), ..) / Node::with_next(h, k, v, next) -> h.alloc_node(..);
+                //      Shared::boxed(<value>, ..) -> the value id itself
+                if let Some(syn::Expr::Call(be)) = c.args.first() {
+                    if let Some(syn::Expr::Call(tn)) = be.args.first() {
+                        if let syn::Expr::Path(tp) = &*tn.func {
+                            let ps = path_str(&tp.path);
+                            if ps == "Node::new" || ps == "Node::with_next" {
+                                let mut args: Vec<String> = vec![];
+                                for a in tn.args.iter() {
+                                    let v = self.expr(a);
+                                    args.push(self.hoist(v));
+                                }
+                                if ps == "Node::new" {
+                                    args.push("NULL".into());
+                                }
+                                return format!("h.alloc_node({})", args.join(", "));
+                            }
+                        }
+                    }
+                }
+                if let Some(a0) = c.args.first() {
+                    if let syn::Expr::Path(_) = a0 {
+                        return self.expr(a0);
+                    }
+                }
+                self.err("Shared::boxed of an unknown object", c.span());
+                return String::new();
+            }
             "Shared::boxed" => {
                 // R8
                 if let Some(syn::Expr::Call(be)) = c.args.first() {
@@ -477,6 +527,43 @@ impl<'a> Tx<'a> {
                     }
                 }
             }
+            "hash" if self.ops && toks(&*m.receiver) == "self" => {
+                // R29: self.hash(&key): the map's hasher is a fixed function of the key
+                let k = self.expr(&m.args[0]);
+                format!("h.hash_of({})", k)
+            }
+            "is_empty" if self.ops => {
+                let r = self.expr(&m.receiver);
+                format!("(h.tab_len({}) == 0)", r)
+            }
+            "is_none" if self.ops => format!("({} is None)", self.expr(&m.receiver)),
+            "is_some" if self.ops => format!("({} is Some)", self.expr(&m.receiver)),
+            "bini" if self.ops => {
+                let r = self.expr(&m.receiver);
+                let a = self.expr(&m.args[0]);
+                format!("h.bini({}, {})", r, a)
+            }
+            "cas_bin" if self.ops => {
+                let r = self.expr(&m.receiver);
+                let args: Vec<String> = m.args.iter().filter(|a| !is_drop_arg(a)).map(|a| self.expr(a)).collect();
+                format!("h.cas_bin({}, {})", r, args.join(", "))
+            }
+            "init_table" | "treeify_bin" | "try_presize" | "untreeify" if self.ops => {
+                let args: Vec<String> = m.args.iter().filter(|a| !is_drop_arg(a)).map(|a| self.expr(a)).collect();
+                let mut all = vec!["h".to_string(), "this".to_string()];
+                all.extend(args);
+                format!("{}({})", name, all.join(", "))
+            }
+            "find_or_put_tree_val" | "remove_tree_node" if self.ops => {
+                // R30: a method of the TreeBin object: f(h, <bin>, args..)
+                let recv = self.expr(&m.receiver);
+                let mut all = vec!["h".to_string(), recv];
+                for a in m.args.iter().filter(|a| !is_drop_arg(a)) {
+                    let v = self.expr(a);
+                    all.push(self.hoist(v));
+                }
+                format!("{}({})", name, all.join(", "))
+            }
             "check_guard" if self.self_ptr => "()".into(),
             "lock" if self.self_ptr => "()".into(),
             "len" if self.self_ptr && m.args.is_empty() => {
@@ -510,6 +597,8 @@ impl<'a> Tx<'a> {
                 self.err("swap on an unknown place", m.span());
                 String::new()
             }
+            "into_box" if self.ops && self.value_vars.contains(&toks(&*m.receiver)) => self.expr(&m.receiver),
+            "into_box" if self.ops && toks(&*m.receiver).replace(' ', "").starts_with("changed.") => self.expr(&m.receiver),
             "into_box" if self.self_ptr => {
                 // R19: X.into_box() -> h.free(X)   (the Box now owns the object: it is released exactly here)
                 if let Some((p, f)) = self.node_field(&m.receiver) {
@@ -663,14 +752,27 @@ impl<'a> Tx<'a> {
                         }
                         // loop-valued let
                         if let syn::Expr::Loop(lp) = &*init.expr {
+                            if self.ops {
+                                self.push(ind, format!("let mut {};", name), ln, true);
+                                self.push(ind, "loop".into(), ln, false);
+                                self.break_targets.push(Some(name.clone()));
+                                self.loop_body(&lp.body, ind, ln);
+                                self.break_targets.pop();
+                                return;
+                            }
                             self.push(ind, format!("let {}{} = loop", m, name), ln, false);
                             self.loop_body(&lp.body, ind, ln);
                             self.lines.last_mut().unwrap().text.push(';');
                             return;
                         }
                         let v = self.expr(&init.expr);
-                        if self.self_ptr && v.starts_with("h.value(") {
+                        if self.self_ptr && (v.starts_with("h.value(") || v.starts_with("h.swap_value(")) {
                             self.value_vars.push(name.clone());
+                        }
+                        if self.ops && toks(&*init.expr).replace(' ', "").starts_with("Shared::boxed") && v == name {
+                            // R28: `let value = Shared::boxed(value, ..)`: the same value id under the same name
+                            self.value_vars.push(name.clone());
+                            return;
                         }
                         self.push(ind, format!("let {}{} = {};", m, name, v), ln, true);
                     }
@@ -681,6 +783,13 @@ impl<'a> Tx<'a> {
                 match n.as_str() {
                     "debug_assert" | "debug_assert_eq" | "debug_assert_ne" => {}
                     "unreachable" => self.push(ind, "assert(false); loop invariant false decreases 0int { }".into(), ln, true),
+                    "assert" if self.ops => {
+                        // R31: assert!(c) is a proof obligation
+                        match syn::parse2::<syn::Expr>(m.mac.tokens.clone()) {
+                            Ok(c) => { let t = self.expr(&c); self.push(ind, format!("assert({});", t), ln, true); }
+                            Err(_) => self.err("assert! with a message", m.span()),
+                        }
+                    }
                     _ => self.err(&format!("macro {}!", n), m.span()),
                 }
             }
@@ -737,7 +846,9 @@ impl<'a> Tx<'a> {
             }
             syn::Expr::Loop(l) => {
                 self.push(ind, "loop".into(), ln, false);
+                self.break_targets.push(None);
                 self.loop_body(&l.body, ind, ln);
+                self.break_targets.pop();
             }
             syn::Expr::ForLoop(fl) if self.self_ptr && toks(&*fl.expr).contains("self.bins") => {
                 // R20: for bin in Vec::from(mem::replace(&mut self.bins, ..)) { body }
@@ -759,7 +870,9 @@ impl<'a> Tx<'a> {
             syn::Expr::While(w) => {
                 let c = self.expr(&w.cond);
                 self.push(ind, format!("while {}", c), ln, false);
+                self.break_targets.push(None);
                 self.loop_body(&w.body, ind, ln);
+                self.break_targets.pop();
             }
             syn::Expr::Match(m) => {
                 // statement-level match: arms as blocks
@@ -768,10 +881,29 @@ impl<'a> Tx<'a> {
                 if on_entry {
                     scrut = format!("h.kind({})", scrut); // R22
                 }
+                let on_cas = self.ops && scrut.starts_with("h.cas_bin(");
+                if on_entry && self.ops {
+                    // R32: a guard of an arm may mention the variable its pattern binds: the object behind the matched pointer
+                    for a in &m.arms {
+                        if a.guard.is_some() {
+                            if let syn::Pat::TupleStruct(ts) = &a.pat {
+                                if let Some(syn::Pat::Ident(pi)) = ts.elems.first() {
+                                    let sc = self.expr(&m.expr);
+                                    self.push(ind, format!("let {}: Ptr = {};", pi.ident, sc), ln, true);
+                                    break;
+                                }
+                            }
+                        }
+                    }
+                }
                 self.push(ind, format!("match {} {{", scrut), ln, false);
                 for a in &m.arms {
                     let mut pat = toks(&a.pat);
                     let mut bound: Option<String> = None;
+                    if on_cas {
+                        // R33: Result<_, CompareExchangeError { current, new }> of cas_bin
+                        pat = if pat.starts_with("Ok") { "CasResult::Ok(_)".to_string() } else { "CasResult::Err(changed_current, changed_new)".to_string() };
+                    }
                     if on_entry {
                         if let syn::Pat::TupleStruct(ts) = &a.pat {
                             if let Some(syn::Pat::Ident(pi)) = ts.elems.first() {
@@ -781,7 +913,8 @@ impl<'a> Tx<'a> {
                         let head = pat.split('(').next().unwrap_or("").trim().to_string();
                         pat = head.replace("BinEntry::", "Kind::").replace("Kind::TreeNode", "Kind::@TN").replace("Kind::Tree", "Kind::TreeBin").replace("Kind::@TN", "Kind::TreeNode");
                     }
-                    self.push(ind + 1, format!("{} => {{", pat), a.span().start().line, false);
+                    let guard = match &a.guard { Some((_, g)) if self.ops => format!(" if {}", self.expr(g)), _ => String::new() };
+                    self.push(ind + 1, format!("{}{} => {{", pat, guard), a.span().start().line, false);
                     self.ctx.push(pat.replace(' ', ""));
                     if let Some(b) = &bound {
                         // `BinEntry::K(ref x)`: x is the object behind the matched pointer
@@ -815,9 +948,33 @@ impl<'a> Tx<'a> {
             syn::Expr::Assign(a) => {
                 if let syn::Expr::Loop(lp) = &*a.right {
                     let l = self.expr(&a.left);
+                    if self.ops {
+                        self.push(ind, "loop".into(), ln, false);
+                        self.break_targets.push(Some(l));
+                        self.loop_body(&lp.body, ind, ln);
+                        self.break_targets.pop();
+                        return;
+                    }
                     self.push(ind, format!("{} = loop", l), ln, false);
                     self.loop_body(&lp.body, ind, ln);
                     self.lines.last_mut().unwrap().text.push(';');
+                    return;
+                }
+                if let (true, syn::Expr::Block(bl)) = (self.ops, &*a.right) {
+                    // R34: X = { stmts; tail }  ->  { stmts; X = tail; }
+                    let l = self.expr(&a.left);
+                    self.push(ind, "{".into(), ln, false);
+                    let n = bl.block.stmts.len();
+                    for (k, st) in bl.block.stmts.iter().enumerate() {
+                        match st {
+                            syn::Stmt::Expr(e2, None) if k + 1 == n => {
+                                let t = self.expr(e2);
+                                self.push(ind + 1, format!("{} = {};", l, t), e2.span().start().line, true);
+                            }
+                            other => self.stmt(other, ind + 1),
+                        }
+                    }
+                    self.push(ind, "}".into(), 0, false);
                     return;
                 }
                 // successor_deref = TreeNode::get_tree_node(successor)  (alias reassignment)
@@ -840,6 +997,11 @@ impl<'a> Tx<'a> {
             syn::Expr::Break(b) => match &b.expr {
                 Some(v) => {
                     let t = self.expr(v);
+                    if let Some(Some(tgt)) = self.break_targets.last().cloned() {
+                        self.push(ind, format!("{} = {};", tgt, t), ln, true);
+                        self.push(ind, "break;".into(), ln, true);
+                        return;
+                    }
                     self.push(ind, format!("break {};", t), ln, true);
                 }
                 None => self.push(ind, "break;".into(), ln, true),
@@ -902,6 +1064,13 @@ fn call_names(text: &str) -> Vec<String> {
             v.push(kw.to_string());
         }
     }
+    // `x = ...;` is the pseudo-call assign_x (anchors that survive the removal of the calls around them)
+    {
+        let id: String = tt.chars().take_while(|c| c.is_ascii_alphanumeric() || *c == '_').collect();
+        if !id.is_empty() && tt[id.len()..].starts_with(" = ") && id != "let" {
+            v.push(format!("assign_{}", id));
+        }
+    }
     let b = text.as_bytes();
     let mut i = 0;
     while i < b.len() {
@@ -928,10 +1097,23 @@ pub fn generate(idx: &SrcIndex, template: &str) -> ArenaOut {
     let mut i = 0;
     while i < lines.len() {
         let t = lines[i].trim();
+        if let Some(name) = t.strip_prefix("//@CONST ") {
+            // the real constant of the crate (type and initialiser text)
+            match idx.consts.iter().find(|c| c.name == name.trim()) {
+                Some(c) => {
+                    out.push_str(&format!("pub const {}: {} = {}; // {}:{}\n", c.name, c.ty, c.expr, c.file, c.line));
+                    extracted.push(serde_json::json!({"fn": format!("const {}", c.name), "file": c.file, "line_start": c.line, "line_end": c.line, "sha256": sha256_hex(&c.item_text)}));
+                }
+                None => errors.push(format!("lost anchor: constant {} not found", name.trim())),
+            }
+            i += 1;
+            continue;
+        }
         let fnv = t.strip_prefix("//@FNV ");
         if let Some(key) = t.strip_prefix("//@FN ").or(fnv) {
             let verbatim = fnv.is_some();
-            let own = template.contains("//@DIALECT OWN");
+            let ops = template.contains("//@DIALECT OPS");
+            let own = template.contains("//@DIALECT OWN") || ops;
             let key = key.trim().to_string();
             // parse the block
             let mut header = vec![];
@@ -972,7 +1154,7 @@ pub fn generate(idx: &SrcIndex, template: &str) -> ArenaOut {
                     errors.push(format!("lost anchor: function {} not found", key));
                 }
                 Some(f) => {
-                    let mut tx = Tx { f, lines: vec![], errors: vec![], aliases: vec![], loop_count: 0, ret_count: 0, self_is_bin: f.owner == "TreeBin" && !own, pre: vec![], tmp_count: 0, verbatim, self_ptr: own, ctx: vec![], lock_vars: vec![], value_vars: vec![] };
+                    let mut tx = Tx { f, lines: vec![], errors: vec![], aliases: vec![], loop_count: 0, ret_count: 0, self_is_bin: f.owner == "TreeBin" && !own, pre: vec![], tmp_count: 0, verbatim, self_ptr: own, ctx: vec![], lock_vars: vec![], value_vars: vec![], ops, break_targets: vec![] };
                     tx.block(&f.block, 1);
                     errors.extend(tx.errors.iter().cloned());
                     // resolve anchors
